@@ -218,3 +218,32 @@ func atomContainsByte(atom string, ch byte) bool {
 		strings.HasPrefix(atom, "strings.Contains(") && strings.HasSuffix(atom, fmt.Sprintf(", %q)", string(ch))) ||
 		strings.HasPrefix(atom, "strings.ContainsRune(") && strings.HasSuffix(atom, fmt.Sprintf(", %d)", ch))
 }
+
+// renderThroughWrapper renders v, looking through a call to a parameterless
+// same-module function that does nothing but return one expression (such as
+// `func lockPath() (string, error) { return subpath(lockName) }`): the wrapper's
+// result is that expression.
+func renderThroughWrapper(v ssa.Value) string {
+	u := eng.Unwrap(v)
+	idx := 0
+	if ex, ok := u.(*ssa.Extract); ok {
+		u, idx = ex.Tuple, ex.Index
+	}
+	call, ok := u.(*ssa.Call)
+	if !ok {
+		return eng.Render(v)
+	}
+	callee := call.Call.StaticCallee()
+	if callee == nil || !eng.IsModuleFunc(callee) || len(callee.Params) != 0 || len(callee.Blocks) != 1 {
+		return eng.Render(v)
+	}
+	rs := eng.Returns(callee)
+	if len(rs) != 1 {
+		return eng.Render(v)
+	}
+	res := eng.RetResults(rs[0])
+	if idx >= len(res) {
+		return eng.Render(v)
+	}
+	return eng.Render(res[idx])
+}
